@@ -17,7 +17,8 @@ import (
 // ---- C20: Params accessors ----
 
 var c20Values = []string{"", "0", "1", "-1", "+1", "007", "1.5", "1e3", "NaN", "Inf", "-Inf", "0x10", "1_0", "true", "T", "FALSE", "tRue", "fALSE", "t ", "9223372036854775807",
-	"9223372036854775808", "-9223372036854775809", "18446744073709551615", "18446744073709551616", "é", "\xff"}
+	"9223372036854775808", "-9223372036854775809", "18446744073709551615", "18446744073709551616", "é", "\xff",
+	"100%41.txt", "a%2Fb", "%31", "1%"} // text that looks percent-escaped is text: the accessors decode nothing
 
 var c20Keys = []string{"", "a", "b"}
 
